@@ -21,6 +21,8 @@ Next ==
      \/ \E v \in Vars, s \in Vars : v # s /\ Bound(s) /\ Add([op |-> "alias", var |-> v, src |-> s])
      \/ \E v \in Vars, k \in fk, x \in fv, side \in {"right", "left"} :
           Bound(v) /\ (k \o "|" \o x) \notin NoPair /\ Add([op |-> "add", var |-> v, k |-> k, v |-> x, side |-> side])
+     \* a malformed update (a one-element tuple): whatever it answers, the dictionary is what it was
+     \/ \E v \in Vars, k \in fk : Bound(v) /\ Add([op |-> "addbad", var |-> v, k |-> k])
      \/ \E v \in Vars, k \in fk : Bound(v) /\ Add([op |-> "find", var |-> v, k |-> k, obs |-> A!Lookup(A!Cell(mon, v), k)])
      \/ \E v \in Vars, k \in fk : Bound(v) /\ Add([op |-> "remove", var |-> v, k |-> k])
      \/ \E v \in Vars : Bound(v) /\ Add([op |-> "size", var |-> v, obs |-> Len(A!Cell(mon, v))])
